@@ -85,11 +85,14 @@ def circuit_bits(resp, in_bits):
     wires = [F] * nw
     for i, b in enumerate(in_bits):
         wires[i] = b
+    # Z3_mk_xor flattens xor chains (quadratic on the long chains of big adders/hash circuits):
+    # large circuits use the equivalent not(a <-> b) form
+    big = len(resp["gates"]) > 20000
     for op, a, b, o in resp["gates"]:
         if op == XOR:
-            wires[o] = z3.Xor(wires[a], wires[b])
+            wires[o] = z3.Not(wires[a] == wires[b]) if big else z3.Xor(wires[a], wires[b])
         elif op == XNOR:
-            wires[o] = z3.Not(z3.Xor(wires[a], wires[b]))
+            wires[o] = (wires[a] == wires[b]) if big else z3.Not(z3.Xor(wires[a], wires[b]))
         elif op == AND:
             wires[o] = z3.And(wires[a], wires[b])
         elif op == OR:
